@@ -15,7 +15,8 @@ RULE = ("all dictionary classes discovered through DiameterAVP.__subclasses__() 
         "and out-of-domain values (wrong Python type, negative and too-wide integers, bytes of every width 0..12, "
         "non-member enumerators, bad address family/width/literals, non aaa(s) URIs, Grouped without mandatory "
         "members); oracle: vendored refdict.json + per-type domain predicates from RFC 6733 4.2/4.3; outcome must "
-        "be 'exception' or 'well-formed encoding of that value'; distinct = (class, value class)")
+        "be 'exception' or 'well-formed encoding of that value'; decode dispatch of every class's own (vendor, code) to that class "
+        "and of the same code under five foreign vendors (and no vendor) to a generic AVP; distinct = (class, value class)")
 
 WIDTH = {"Unsigned32": 4, "Integer32": 4, "Enumerated": 4, "Time": 4, "Unsigned64": 8, "Integer64": 8}
 EQUIV_TYPES = {"IPFilterRule": "OctetString", "Integer64": "Unsigned64"}
@@ -313,6 +314,26 @@ def dictionary_checks(acc, g):
             if len(back) != 1 or type(back[0]).__name__ != n:
                 acc.violation("load-dispatch-wrong-class", "(%r, %d) decoded as %s, dictionary class %s" % (
                     row["vendor"], row["code"], type(back[0]).__name__ if back else None, n), {"class": n})
+            if i == 0:
+                # the dispatch is a function of the *pair*: the same code under a vendor for which the published dictionary
+                # defines nothing at that code must not come back as a dictionary class
+                defined = {(r["vendor"], r["code"]) for r in rd.values()}
+                for foreign in (None, 9, 323, 10415, 13019, 0x7fffffff):
+                    if foreign == row["vendor"] or (foreign, row["code"]) in defined:
+                        continue
+                    la = R.LAvp(row["code"], (row["flags"] & 0x7f) | (0x80 if foreign is not None else 0), foreign, R.avp_data(spec.lavp))
+                    acc.counters["foreign_pair_decodes"] += 1
+                    try:
+                        fb = DiameterAVP.load(R.encode_avp(la))
+                    except BaseException as ex:
+                        if type(ex).__module__.startswith("bromelia"):
+                            acc.observe("foreign-pair-rejected:%s" % type(ex).__name__)
+                        else:
+                            acc.violation("load-dispatch-foreign-pair-raises", "(%r, %d) - not in the dictionary - raised %r" % (foreign, row["code"], ex), {"class": n, "vendor": foreign})
+                        continue
+                    if len(fb) != 1 or type(fb[0]) is not DiameterAVP:
+                        acc.violation("load-dispatch-foreign-pair-to-dictionary-class", "(%r, %d) is not in the dictionary but decodes as %s (the class of (%r, %d))" % (
+                            foreign, row["code"], type(fb[0]).__name__ if fb else None, row["vendor"], row["code"]), {"class": n, "vendor": foreign})
     for n in rd:
         if n not in seen:
             acc.violation("dictionary-class-missing", "published AVP class %s is gone from the library" % n, {"class": n})
@@ -401,7 +422,7 @@ def main(tier, seed):
                            "M/P default flags are frozen, not independently verified",
                            "IPFilterRule == OctetString on the wire (RFC 6733 4.3.1); Value-Digits (Integer64 in RFC 4006) is an 8-byte integer",
                            "booleans, Address families other than 1/2, int arguments for Integer32/Enumerated and URI details beyond the scheme are observed, not judged"],
-                          t0, require_counters=("rejected", "accepted", "refdict_rows_compared", "instances_checked", "docs_rows_compared",
+                          t0, require_counters=("rejected", "accepted", "refdict_rows_compared", "instances_checked", "foreign_pair_decodes", "docs_rows_compared",
                                                 "definitions_rows_compared"))
 
 
